@@ -26,6 +26,7 @@ class TapMixin:
         self._auto = 0
         self._sentinel_next = False
         self._pending_sentinel = None
+        self._dead_sentinels = []
         self.tap_enabled = True
         self.probe_enabled = True   # False: observe through schedule()/step() only, leave every callbacks list untouched
         self.quiet = False      # set around the creation of harness filler events that must not be recorded
@@ -128,12 +129,25 @@ class TapMixin:
         self.in_step = True
         self._sentinel_next = False    # run() places its stop before the first step
         try:
+            n0 = len(self.log)
             super().step()
+            if self._dead_sentinels and self.tap_enabled and self.probe_enabled and \
+                    not any(r[0] == 'P' for r in self.log[n0:]):
+                for k, (lb, at) in enumerate(self._dead_sentinels):
+                    if at == self.now:
+                        # the stop of an abandoned run(): processed like any occurrence, it just stops nothing any more
+                        del self._dead_sentinels[k]
+                        self.log.append(('P', self.tick(), lb, self.now, self.step_no, True, None))
+                        break
         except EmptySchedule:
             self.step_no -= 1
             raise
         except StopSimulation:
             ps = self._pending_sentinel
+            if ps is None and self._dead_sentinels and self._dead_sentinels[0][1] == self.now and not any(
+                    r[0] == 'P' for r in self.log[n0:]):
+                # a kernel that leaves the stop of an abandoned run armed: the stale stop ends this run
+                ps = self._pending_sentinel = self._dead_sentinels.pop(0)
             if ps is not None and self.now == ps[1] and not (
                     self.log and self.log[-1][0] == 'P' and self.log[-1][4] == self.step_no):
                 # the numeric run-until stop took effect in this step (it carries no probe when the kernel
@@ -164,6 +178,13 @@ class TapMixin:
                                  self.step_no if self.in_step else None, at))
         try:
             return super().run(until)
+        except BaseException:
+            # the run was abandoned: a kernel that withdraws the stop request leaves the stop occurrence on the agenda as
+            # a dead entry (no callback, hence no probe); step() logs its processing when it comes up
+            if self._pending_sentinel is not None:
+                self._dead_sentinels.append(self._pending_sentinel)
+                self._pending_sentinel = None
+            raise
         finally:
             self._sentinel_next = False
 
